@@ -866,6 +866,13 @@ class Manager:
 
             self.fire(exception(*err, handler=None, fevent=event))
 
+            # The failed generator has finished as well
+            event.waitingHandlers -= 1
+            if parent:
+                self.registerTask((event, parent, None))
+            elif event.waitingHandlers == 0:
+                self._eventDone(event, err)
+
     def tick(self, timeout=-1):
         """
         Execute all possible actions once. Process all registered tasks
